@@ -77,6 +77,9 @@ func vExplore(r *vReport, sc *vScenario) *vsched.Result {
 		}
 		r.Violation(key, fmt.Sprintf("scenario %s: %s | choices=%v", sc.Name, vTrunc(msg, 600), v.Choices),
 			map[string]any{"scenario": sc.Name, "choices": v.Choices, "trace": tr, "observation": vTrunc(v.Obs, 2000)})
+		if n := res.ViolationCount[key]; n > 1 {
+			r.vkeys[key].Count += n - 1
+		}
 	}
 	if sc.MinOutcomes > 0 && r.NShards <= 1 && len(res.Outcomes) < sc.MinOutcomes && res.Exhaustive && len(res.Violations) == 0 {
 		r.HarnessError("scenario %s is vacuous: %d distinct observations, expected >= %d", sc.Name, len(res.Outcomes), sc.MinOutcomes)
